@@ -477,3 +477,37 @@ PROPS["C16"].assumptions = [a for a in PROPS["C16"].assumptions if "type_functio
     "type_functions::render_type / any_type (the ->type() builtin): Kani leaf contracts per kind (any_type on a user-function receiver does not terminate in CBMC: only render_type is checked for that kind)",
     "the 240-harness Kani operator matrix and the 32 coercion harnesses run in the thorough tier only (second back end)"]
 PROPS["C16"].trusted_base = VERUS_TRUST + COMMON_TRUST
+
+
+# ---------------------------------------------------------------------------------------------
+# C19 (the "printing is a canonical function of the value" half; run-to-run determinism under a varied
+# environment is the absence of reads and has no function to put under contract)
+# ---------------------------------------------------------------------------------------------
+V_PRINT = VUnit("print_render", "print_render", ["builtins::fns::render", "builtins::fns::print", "builtins::fns::assert_args",
+                                                 "builtins::fns::assert_no_this"])
+ALL_V += [V_PRINT]
+PROPS["C02"]._v = ALL_V
+PROPS["C19"] = Prop(
+    "C19", "proof",
+    "Unit V-print: fns::render, fns::print, assert_args and assert_no_this copied verbatim from src/builtins/fns.rs and verified (Verus) for values "
+    "of ANY depth and size: render(v) returns exactly rendered(v), a recursive specification function of the structure of v written from the property "
+    "statement (null as <null>, bools/ints via Display, strings raw, one four-space-indented `item,` line per list element, one `\"key\": value,` line "
+    "per object property in ascending key order, nested renderings re-indented by replacing every newline with newline + four spaces); print takes "
+    "exactly one argument, hands println! exactly that rendering, and returns null. The law `values that are == print identically regardless of "
+    "aliasing or construction order` is a lemma over rendered and the veq of the eq unit, by induction on the value. The alias `Object` is copied from "
+    "src/eval/value.rs; only an ordered map's iteration contract is a function of the contents (a hash map's is not, so naming one fails the proof).",
+    vunits=[V_PRINT],
+    assumptions=[
+        "run-to-run determinism under varied cwd / environment / locale / path spelling / hash seeds is NOT decided: it is the absence of reads in main.rs and of "
+        "observable hash-order iteration anywhere in the evaluator, which is no single function's postcondition",
+        "std contracts assumed: Display of bool/i64/usize/String/&str (i64 rendering is the uninterpreted `shown_i64`, i.e. decimal is assumed, not proved), Debug of "
+        "Option<String>, String += &str appends, String::from_utf8 succeeds exactly on valid UTF-8, str::replace(char, &str) replaces every occurrence, println! "
+        "writes its text and one newline, BTreeMap iterates in ascending key order and that order is a function of the key set",
+        "`format!` / `println!` with inline arguments are expanded piece by piece by the extractor (edit D6) according to std::fmt's documented meaning",
+        "A-lock: every lock succeeds and cells are not shared, so printing a value that contains itself (a lock re-entrancy abort) is outside this unit",
+        "hash-based containers elsewhere (scopes, per-pattern name set, bind_object's remaining-key set): not observable by construction of the other units' "
+        "contracts (object_bind proves `rest` is exactly the remaining properties as a map), but no contract states `order is not observable` as such",
+    ],
+    trusted_base=VERUS_TRUST,
+    not_covered=["environment independence of a whole run", "error-order determinism", "cyclic values"],
+)
